@@ -247,6 +247,18 @@ def check(case):
                 if i + 1 < len(trace) and (ct, data) in out:
                     state["held"] = (ct, data)
                     out.remove((ct, data))
+            elif k == "coalesce":
+                # the message and a further one in ONE record: legal framing
+                # in general, but a message that changes keys must end its
+                # record (RFC 8446 section 5.1)
+                m = pool_msg(d[2], log["c"], log["s"], version)
+                if m is None or m[0] != 22 or ct != 22 or \
+                        (ct, data) not in out:
+                    continue
+                out = [(22, data + m[1]) if x == (ct, data) else x
+                       for x in out]
+                if version == (3, 4) and data[0] in (2, 20, 24):
+                    state["keychange_coalesced"] = data[0]
             elif k in ("insert", "replace"):
                 m = pool_msg(d[2], log["c"], log["s"], version)
                 if m is None:
@@ -290,6 +302,27 @@ def check(case):
                             side)
     vconn = p.conn(vic)
     vout = p.co if vic == "c" else p.so
+    if state.get("keychange_coalesced") is not None:
+        # judged on its own: the victim must notice, at the latest when it
+        # touches the bytes that followed the key-changing message
+        labels.append("model=keychange-not-aligned")
+        o = vout
+        if vout.ok:
+            o = post_read if (vic == "c" and post_read is not None) \
+                else sc.do_read(p, vic, 100, 1)
+        labels.append("victim=" + (describe_exc(o.exc) if o.exc
+                                   else o.state))
+        if o.state == "exc":
+            if isinstance(o.exc, (BaseTLSException, OSError)):
+                return good(labels=labels)
+            return bad("unrelated-exception:%s@%s" % (
+                type(o.exc).__name__, exc_site(o.exc)), repr(case),
+                labels=labels)
+        return bad("keychange-message-not-record-aligned:msg%d:victim=%s" % (
+            state["keychange_coalesced"], vic),
+            "handshake bytes following a key-changing message in the same "
+            "record were processed (victim state %r); case=%r" % (o, case),
+            labels=labels)
     labels.append("model=" + verdict)
     labels.append("victim=" + (describe_exc(vout.exc) if vout.exc
                                else vout.state))
@@ -466,7 +499,10 @@ def dev_strategy():
         st.tuples(st.just("swap"), i),
         st.tuples(st.just("insert"), i, t),
         st.tuples(st.just("replace"), i, t),
-        st.tuples(st.just("append"), st.just(0), t)).map(list)
+        st.tuples(st.just("append"), st.just(0), t),
+        st.tuples(st.just("coalesce"), i, st.sampled_from(
+            ["key_update", "finished_bad", "nst13", "hello_request",
+             "cert_request13"]))).map(list)
 
 
 @st.composite
@@ -505,6 +541,10 @@ def explicit(tier, seed):
                 for t in (POOL if tier == "thorough" else POOL[i % 3::3]):
                     yield {"k": "dev", "fl": fl, "side": side,
                            "devs": [["replace", i, t]]}
+                if version == (3, 4):
+                    for t in ("key_update", "nst13", "finished_bad"):
+                        yield {"k": "dev", "fl": fl, "side": side,
+                               "devs": [["coalesce", i, t]]}
             for t in POOL:
                 yield {"k": "dev", "fl": fl, "side": side,
                        "devs": [["append", 0, t]]}
